@@ -88,16 +88,16 @@ type Rule struct {
 
 // Ob is one obligation (rule instance).
 type Ob struct {
-	Rule       string `json:"rule"`
-	Func       string `json:"func"`
-	Site       string `json:"site"`
-	Construct  string `json:"construct"`
-	Obligation string `json:"obligation"`
-	Status     string `json:"status"` // ok | violation | undecided | open
-	By         string `json:"discharged_by,omitempty"`
-	Msg        string `json:"message,omitempty"`
+	Rule       string   `json:"rule"`
+	Func       string   `json:"func"`
+	Site       string   `json:"site"`
+	Construct  string   `json:"construct"`
+	Obligation string   `json:"obligation"`
+	Status     string   `json:"status"` // ok | violation | undecided | open
+	By         string   `json:"discharged_by,omitempty"`
+	Msg        string   `json:"message,omitempty"`
 	Path       []string `json:"path,omitempty"`
-	Config     string `json:"config,omitempty"`
+	Config     string   `json:"config,omitempty"`
 }
 
 // Rule opens (or re-opens, for another build configuration) a rule.
